@@ -492,24 +492,34 @@ Proof.
     eapply hw_frame; eauto. intros Rl. eapply (S r' r); eauto. exists l; auto.
 Qed.
 (* ------------------------------------------------------------------ one step *)
-Definition update_state (s : state) (dst : nat) (rec : cell) : state :=
-  mkState (fst (alloc_list (map (shallow_p (hp s)) rec) (hp s))) (dfl s)
-          (set_nth dst (snd (alloc_list (map (shallow_p (hp s)) rec) (hp s))) (insts s)).
+Definition update_state (s : state) (dst : nat) (ov : list (option Z)) (rec : cell) : state :=
+  mkState (fst (alloc_list (upd_list (hp s) ov rec) (hp s))) (dfl s)
+          (set_nth dst (snd (alloc_list (upd_list (hp s) ov rec) (hp s))) (insts s)).
 
-Lemma step_update c s dst src : step c s (OUpdate dst src) =
+Lemma step_update c s dst src ov : step c s (OUpdate dst src ov) =
   match nth_error (insts s) dst, nth_error (insts s) src with
-  | Some _, Some rec => update_state s dst rec
+  | Some _, Some rec => update_state s dst ov rec
   | _, _ => s
   end.
 Proof.
   simpl. destruct (nth_error (insts s) dst); auto. destruct (nth_error (insts s) src) as [rec|]; auto.
-  unfold update_state. now destruct (alloc_list (map (shallow_p (hp s)) rec) (hp s)).
+  unfold update_state. now destruct (alloc_list (upd_list (hp s) ov rec) (hp s)).
 Qed.
 
-Lemma shallow_aliases s rec a : Inv s -> In rec (insts s) ->
-  In a (flat_map paliases (map (shallow_p (hp s)) rec)) -> clean s a.
+Lemma upd_list_aliases h : forall rec ov a,
+  In a (flat_map paliases (upd_list h ov rec)) -> In a (flat_map paliases (map (shallow_p h) rec)).
 Proof.
-  intros [W D F I] Hr Ha. apply in_flat_map in Ha as (p & Hp & Ha).
+  induction rec as [|v r IH]; intros ov a Ha; simpl in *; auto.
+  destruct ov as [|[z|] ro]; simpl in Ha.
+  - apply in_app_or in Ha as [Ha|Ha]; apply in_or_app; eauto.
+  - apply in_or_app; eauto.
+  - apply in_app_or in Ha as [Ha|Ha]; apply in_or_app; eauto.
+Qed.
+
+Lemma shallow_aliases s ov rec a : Inv s -> In rec (insts s) ->
+  In a (flat_map paliases (upd_list (hp s) ov rec)) -> clean s a.
+Proof.
+  intros [W D F I] Hr Ha. apply upd_list_aliases in Ha. apply in_flat_map in Ha as (p & Hp & Ha).
   apply in_map_iff in Hp as ([z|l] & <- & Hl); simpl in Ha; [destruct Ha|].
   destruct (nth_error (hp s) l) as [c|] eqn:E; simpl in Ha; [|destruct Ha].
   apply in_flat_map in Ha as (q & Hq & Ha). apply in_map_iff in Hq as ([z|j] & <- & Hj); simpl in Ha; [destruct Ha|].
@@ -521,7 +531,7 @@ Qed.
 
 Lemma step_dfl c s o : dfl (step c s o) = dfl s.
 Proof.
-  destruct o as [fs|fs|r|r|dst src|r path k z]; try rewrite step_update; simpl;
+  destruct o as [fs|fs|r|r|dst src ov|r path k z]; try rewrite step_update; simpl;
     rewrite ?build_eq; simpl; auto.
   - destruct (nth_error (insts s) r); auto. destruct (mkcopy_deep c); rewrite ?build_eq; auto.
   - destruct (nth_error (insts s) r); rewrite ?build_eq; auto.
@@ -531,7 +541,7 @@ Qed.
 
 Lemma step_inv c s o : parse_fresh c = true -> Inv s -> Inv (step c s o).
 Proof.
-  intros PF HI. destruct o as [fs|fs|r|r|dst src|r path k z]; try rewrite step_update; simpl.
+  intros PF HI. destruct o as [fs|fs|r|r|dst src ov|r path k z]; try rewrite step_update; simpl.
   - apply build_inv; auto. apply clean_nil, no_alias_fresh.
   - rewrite PF. apply build_inv; auto. apply clean_nil, no_alias_fresh.
   - destruct (nth_error (insts s) r) as [rec|] eqn:Er; auto. destruct (mkcopy_deep c).
@@ -552,7 +562,7 @@ Qed.
 Lemma step_sep c s o : parse_fresh c = true -> mkcopy_deep c = true -> is_update o = false ->
   Inv s -> Sep s -> Sep (step c s o).
 Proof.
-  intros PF MD NU HI S. destruct o as [fs|fs|r|r|dst src|r path k z]; simpl; try discriminate.
+  intros PF MD NU HI S. destruct o as [fs|fs|r|r|dst src ov|r path k z]; simpl; try discriminate.
   - apply build_sep; auto. apply no_alias_fresh.
   - rewrite PF. apply build_sep; auto. apply no_alias_fresh.
   - destruct (nth_error (insts s) r) as [rec|] eqn:Er; auto. rewrite MD.
@@ -573,7 +583,7 @@ Proof.
   assert (B : forall ps, flat_map paliases ps = [] ->
                          value_f n (hp (build s ps)) (Ref d) = value_f n (hp s) (Ref d)).
   { intros ps A. rewrite build_eq. simpl. apply alloc_values; auto. rewrite A. intros a []. }
-  destruct o as [fs|fs|r|r|dst src|r path k z]; try rewrite step_update; simpl.
+  destruct o as [fs|fs|r|r|dst src ov|r path k z]; try rewrite step_update; simpl.
   - apply B, no_alias_fresh.
   - rewrite PF. apply B, no_alias_fresh.
   - destruct (nth_error (insts s) r) as [rec|]; auto. destruct (mkcopy_deep c); auto. apply B, no_alias_deep.
@@ -596,7 +606,7 @@ Proof.
     apply map_ext_in. intros v Hv. apply alloc_values; auto.
     - rewrite A. intros a [].
     - pose proof (inv_fits _ HI _ (nth_error_In _ _ E)) as Fr. destruct v; simpl; auto. }
-  destruct o as [fs|fs|r|r|dst src|r path k z]; try rewrite step_update; simpl.
+  destruct o as [fs|fs|r|r|dst src ov|r path k z]; try rewrite step_update; simpl.
   - apply B, no_alias_fresh.
   - rewrite PF. apply B, no_alias_fresh.
   - destruct (nth_error (insts s) r) as [rec|]; auto. destruct (mkcopy_deep c); [apply B, no_alias_deep|].
@@ -708,7 +718,7 @@ Qed.
 
 Lemma step_len c s o : length (hp s) <= length (hp (step c s o)).
 Proof.
-  destruct o as [fs|fs|r|r|dst src|r path k z]; try rewrite step_update; simpl;
+  destruct o as [fs|fs|r|r|dst src ov|r path k z]; try rewrite step_update; simpl;
     rewrite ?build_eq; simpl; auto using alloc_list_len.
   - destruct (nth_error (insts s) r); auto. destruct (mkcopy_deep c); rewrite ?build_eq; simpl; auto using alloc_list_len.
   - destruct (nth_error (insts s) r); rewrite ?build_eq; simpl; auto using alloc_list_len.
@@ -799,7 +809,7 @@ Proof. vm_compute. repeat split. Qed.
 (* update_from_other_container copies one level only (unchanged by the repairs): below that level source
    and destination share -- this is why [instances_independent] excludes OUpdate from the history *)
 Definition wit_update_ops : list op :=
-  [ONew [XNode [XNode [XImm 1]]]; ONew [XNode []]; OUpdate 1 0; OWrite 1 [0; 0] 0 9].
+  [ONew [XNode [XNode [XImm 1]]]; ONew [XNode []]; OUpdate 1 0 []; OWrite 1 [0; 0] 0 9].
 
 Lemma update_shares :
   inst_values 4 (run fixed (init []) wit_update_ops) 0 = Some [TNode [TNode [TImm 9]]] /\
